@@ -20,6 +20,10 @@ SLEEP1 = [3]
 
 def gen_jobs(rng, n):
     jobs = [{'src': SRC1, 'sleep_lines': SLEEP1, 'seed': 1, 'max_decoys': 0}]
+    # a previous run of the same object was killed with a prompt open: that prompt's numbers must not count as open in
+    # the next run (there they belong to a prompt that has not been issued yet when the early command arrives)
+    for k in (2, 3, 4, 5)[: max(2, n // 6)]:
+        jobs.append({'src': SRC1, 'sleep_lines': SLEEP1, 'seed': 100 + k, 'max_decoys': 1, 'first_run_kill_at': k, 'timeout': 60})
     for _ in range(n - 1):
         one = rng.random() < 0.25
         jobs.append({'src': SRC1 if one else SRC, 'sleep_lines': SLEEP1 if one else SLEEP_LINES,
